@@ -189,7 +189,18 @@ func raceColl(w *World) {
 				opts := append(raceWriteOpts(t), resource.WithCreateIfAbsent())
 				lists[i] = append(lists[i], func(*Task) { r, _ := c.Update(id, tam(x), opts...); touch(r) })
 			case 4:
-				lists[i] = append(lists[i], func(*Task) { r, _ := c.Delete(id, resource.WithAllowMissing(true)); touch(r) })
+				// deletes with the preconditions whose callbacks / comparisons read the stored message
+				dopts := []resource.WriteOption{resource.WithAllowMissing(true)}
+				switch t.Choose(3) {
+				case 1:
+					dopts = append(dopts, resource.WithExpectedCheck(func(old proto.Message) error {
+						touch(old)
+						return nil
+					}))
+				case 2:
+					dopts = append(dopts, resource.WithExpectedValue(tam(x-1)))
+				}
+				lists[i] = append(lists[i], func(*Task) { r, _ := c.Delete(id, dopts...); touch(r) })
 			case 5:
 				lists[i] = append(lists[i], func(*Task) {
 					for _, m := range c.List() {
